@@ -637,7 +637,7 @@ def gen_bad_ref(rng):
 def dyadic(rng, lo_exp=1, hi_exp=10, maxnum=None):
     """(decimal string, Fraction) of k / 2^j, exactly representable"""
     j = rng.randint(lo_exp, hi_exp)
-    k = rng.randint(0, (2 ** j) if maxnum is None else maxnum * 2 ** j)
+    k = rng.randint(1, (2 ** j) if maxnum is None else maxnum * 2 ** j)
     fr = Fraction(k, 2 ** j)
     return frac_to_decimal(fr), fr
 
@@ -1407,18 +1407,18 @@ def run(ctx):
     rng = ctx.rng
     mult = ctx.search_mult
     cases = [json.loads(json.dumps(c)) for c in CORPUS]
-    n_acc = ctx.n(700, 7000) * mult
+    n_acc = ctx.n(2500, 20000) * mult
     for i in range(n_acc):
         cases.append(gen_acc_case(rng, ACC_CLASSES[i % len(ACC_CLASSES)] if i < 4 * len(ACC_CLASSES) else None))
-    for _ in range(ctx.n(60, 600) * mult):
+    for _ in range(ctx.n(150, 1000) * mult):
         cases.append(gen_size_case(rng))
-    for _ in range(ctx.n(300, 3000) * mult):
+    for _ in range(ctx.n(1200, 8000) * mult):
         cases.append(gen_cellid_case(rng))
-    for _ in range(ctx.n(300, 3000) * mult):
+    for _ in range(ctx.n(1200, 8000) * mult):
         cases.append(gen_delay_case(rng))
-    for _ in range(ctx.n(120, 1200) * mult):
+    for _ in range(ctx.n(400, 3000) * mult):
         cases.append(gen_hsfi_case(rng))
-    for _ in range(ctx.n(120, 1000) * mult):
+    for _ in range(ctx.n(400, 3000) * mult):
         cases.append(gen_doc_case(rng, big=(ctx.tier == "thorough")))
     # the generated references / spellings are inside the schema patterns and inside the theorems' vocabulary
     trx, prx = time_regex()
